@@ -23,7 +23,115 @@ class Objects:
         return None
 
     def havoc_db(self, ex, st, db):
-        return db
+        if db is None:
+            return db
+        tables = {}
+        for name, seq in db.get("tables").items():
+            tables[name] = fresh_seq(seq.ety(), "tbl_" + name, (), None, "list")
+            st.assume(to_z3(tables[name].n) >= 0)
+        return Opaque("db", sealed=z3.Bool(uid("sealed")), tables=tables)
+
+    # ------------------------------------------------------------------ sqlite3 model
+    def db(self, ex, st):
+        d = st.ghost.get("__db__")
+        if d is None:
+            raise EngineError("%s: database access but the contract does not declare db=True" % ex.fnname)
+        return d
+
+    def sql_contract(self, ex, sqltext, node):
+        if not isinstance(sqltext, str) or sqltext == "<formatted>":
+            raise EngineError("%s:L%d: SQL text is not a literal" % (ex.fnname, node.lineno))
+        key = " ".join(sqltext.split())
+        c = self.ctx.registry.sql.get(key)
+        if c is None:
+            raise EngineError("%s:L%d: no SQL contract for statement: %s" % (ex.fnname, node.lineno, key[:90]))
+        return c
+
+    def cursor_execute(self, ex, st, cur, bm, args, kwargs, node, many=False):
+        libspec = self.ctx.lib
+        c = self.sql_contract(ex, args[0], node)
+        from . import libspec as L
+        L.trusted("SQL statement contract %s (assumed; validated against SQLite on small databases by bounded/sqlcheck)" % c.target)
+        params = args[1] if len(args) > 1 else None
+        db = self.db(ex, st)
+        kind = c.options.get("kind", "select")
+        fr = State()
+        fr.pc = st.pc
+        fr.ghost = st.ghost
+        fr.locals = {"p": params}
+        saved = ex.checking
+
+        def ev(e, extra=None):
+            ex.checking = False
+            try:
+                if extra:
+                    fr.locals.update(extra)
+                return ex.eval(e, fr)
+            finally:
+                ex.checking = saved
+        if kind == "select":
+            rows = fresh(parse_type("list[%s]" % c.options["rows"]), "rows")
+            st.assume(to_z3(rows.n) >= 0)
+            if c.options.get("one_row"):
+                st.assume(ex.cmp_eq(rows.n, 1))
+            fr.locals["rows"] = rows
+            for e in c.ensures:
+                st.assume(ex.truth(ev(e)))
+            newcur = cur.updated(rows=rows, one_row=bool(c.options.get("one_row")))
+        else:
+            # a write: inside one transaction only (C20: no write after the step's commit)
+            ex.oblige(st, znot(db.get("sealed")), "write-before-commit", node,
+                      "%s on %s after connection.commit() in the same step" % (kind, c.options.get("table")))
+            table = c.options.get("table")
+            tables = dict(db.get("tables"))
+            if "row" in c.options and table:
+                lam = c.options["row"]
+                if many:
+                    src = ex.as_seq(params, st)
+                    ety = None
+                    def rowat(i, src=src, lam=lam):
+                        return ev(lam.body, {lam.args.args[0].arg: src.at(i)})
+                    new = Seq(src.n, rowat, "list")
+                else:
+                    new = Seq.of([ev(lam.body, {lam.args.args[0].arg: params})], "list")
+                cur_rows = tables.get(table)
+                tables[table] = new if cur_rows is None else ex.seq_concat([cur_rows, new], "list")
+            st.ghost["__db__"] = Opaque("db", sealed=db.get("sealed"), tables=tables)
+            newcur = cur.updated(rows=None)
+        self.ctx.lib.writeback(ex, st, bm, newcur) if isinstance(bm.base_node, ast.Name) else None
+        return newcur
+
+    def call_method_db(self, ex, st, obj, bm, args, kwargs, node):
+        name = bm.name
+        if obj.kind == "connection":
+            if name == "cursor":
+                return Opaque("cursor", rows=None)
+            if name == "commit":
+                db = self.db(ex, st)
+                st.ghost["__db__"] = Opaque("db", sealed=True, tables=db.get("tables"))
+                return None
+            if name == "execute":
+                return self.cursor_execute(ex, st, Opaque("cursor", rows=None), bm, args, kwargs, node)
+            if name == "close":
+                return None
+        if obj.kind == "cursor":
+            if name == "execute":
+                return self.cursor_execute(ex, st, obj, bm, args, kwargs, node)
+            if name == "executemany":
+                return self.cursor_execute(ex, st, obj, bm, args, kwargs, node, many=True)
+            if name == "fetchone":
+                rows = obj.get("rows")
+                if rows is None:
+                    raise EngineError("%s:L%d: fetchone without a preceding SELECT" % (ex.fnname, node.lineno))
+                return MaybeNone(ex.cmp_ge(rows.n, 1), rows.at(0))
+            if name == "fetchall":
+                rows = obj.get("rows")
+                if rows is None:
+                    raise EngineError("%s:L%d: fetchall without a preceding SELECT" % (ex.fnname, node.lineno))
+                return rows
+            if name == "close":
+                return None
+        raise EngineError("%s:L%d: method %s of %s outside the subset" % (ex.fnname, node.lineno, name, obj.kind))
 
     def call_opaque(self, ex, st, fv, args, kwargs, node):
         if fv.kind == "interp1d":
@@ -43,6 +151,8 @@ class Objects:
         raise EngineError("%s:L%d: call of %r outside the subset" % (ex.fnname, node.lineno, fv))
 
     def call_method(self, ex, st, obj, bm, args, kwargs, node):
+        if obj.kind in ("connection", "cursor"):
+            return self.call_method_db(ex, st, obj, bm, args, kwargs, node)
         raise EngineError("%s:L%d: method %s of %r outside the subset" % (ex.fnname, node.lineno, bm.name, obj))
 
     def index_opaque(self, ex, st, base, node):
